@@ -58,12 +58,17 @@ func genCase(t *rapid.T) runnerCase {
 			Frequency:  time.Duration(f) * time.Millisecond,
 		})
 	}
+	if n >= 2 && rapid.IntRange(0, 5).Draw(t, "neverStartingSchedule") == 0 {
+		// a start delay at the top of the Duration range: that schedule (and the ones behind it) never start
+		c.Schedules[rapid.IntRange(1, n-1).Draw(t, "neverStartingAt")].StartDelay =
+			rapid.SampledFrom([]time.Duration{1<<63 - 1, 1<<63 - 1 - time.Second, 1 << 62}).Draw(t, "hugeDelay")
+	}
 	c.FnUs = rapid.SampledFrom([]int{0, 0, 200, 3000, 15000, 40000}).Draw(t, "fnMicros")
 	nops := rapid.IntRange(0, 3).Draw(t, "restarts")
 	for i := 0; i < nops; i++ {
 		c.Script = append(c.Script, op{AfterMs: rapid.IntRange(0, 120).Draw(t, fmt.Sprintf("after%d", i)), Kind: "restart"})
 	}
-	c.Script = append(c.Script, op{AfterMs: rapid.IntRange(0, 220).Draw(t, "afterEnd"), Kind: rapid.SampledFrom([]string{"stop", "stop", "cancel"}).Draw(t, "end")})
+	c.Script = append(c.Script, op{AfterMs: rapid.IntRange(0, 220).Draw(t, "afterEnd"), Kind: rapid.SampledFrom([]string{"stop", "stop", "cancel", "stop-twice-at-once"}).Draw(t, "end")})
 	return c
 }
 
@@ -77,6 +82,7 @@ type runObs struct {
 	leak          error
 
 	invocationsAfterCancelWait int
+	twoStops                   bool
 }
 
 func execute(c runnerCase) (runObs, error) {
@@ -117,6 +123,23 @@ func execute(c runnerCase) (runObs, error) {
 			obs.inFlightAtEnd = inFlight.Load()
 			obs.endReturned = time.Since(base)
 			obs.endKind = "stop"
+		case "stop-twice-at-once":
+			// two callers stop the runner at the same time: what Stop promises, it promises to both
+			type ret struct {
+				at       time.Duration
+				inFlight int32
+			}
+			rets := make(chan ret, 2)
+			for k := 0; k < 2; k++ {
+				go func() {
+					r.Stop()
+					rets <- ret{time.Since(base), inFlight.Load()}
+				}()
+			}
+			a, b := <-rets, <-rets
+			obs.endReturned, obs.inFlightAtEnd = min(a.at, b.at), max(a.inFlight, b.inFlight)
+			obs.endKind = "stop"
+			obs.twoStops = true
 		case "cancel":
 			cancel()
 			obs.endReturned = time.Since(base)
@@ -186,7 +209,7 @@ func judge(c runnerCase, obs runObs) string {
 			}
 		}
 		for j := 1; j <= i; j++ {
-			base += c.Schedules[j].StartDelay
+			base = satAdd(base, c.Schedules[j].StartDelay)
 		}
 		return base, found
 	}
@@ -218,7 +241,7 @@ func judge(c runnerCase, obs runObs) string {
 		if !ok {
 			return fmt.Sprintf("invocation #%d: no Restart call can account for the step back", n)
 		}
-		earliest := low + time.Duration(k)*c.Schedules[i].Frequency
+		earliest := satAdd(low, time.Duration(k)*c.Schedules[i].Frequency)
 		if inv.Enter+slack < earliest {
 			return fmt.Sprintf("invocation #%d is the %d. consecutive one of schedule %d (every %s); it entered at %s, earlier than %s (the schedule cannot have started before %s)",
 				n, k, i, c.Schedules[i].Frequency, inv.Enter, earliest, low)
@@ -238,6 +261,14 @@ func judge(c runnerCase, obs runObs) string {
 		return fmt.Sprintf("after %s a goroutine of the runner remains: %v", obs.endKind, obs.leak)
 	}
 	return ""
+}
+
+// satAdd adds two non-negative durations, saturating at the top of the range.
+func satAdd(a, b time.Duration) time.Duration {
+	if a > 1<<63-1-b {
+		return 1<<63 - 1
+	}
+	return a + b
 }
 
 func countBefore(ts []time.Duration, t time.Duration) int {
@@ -263,6 +294,15 @@ func TestProp_RunnerScripts(t *testing.T) {
 		}
 		nontrivial := len(obs.log) >= 3 && (len(schedulesSeen) >= 2 || len(obs.restarts) > 0)
 		cls := []string{"end-" + obs.endKind}
+		if obs.twoStops {
+			cls = append(cls, "two-concurrent-stops")
+		}
+		for _, sc := range c.Schedules {
+			if sc.StartDelay >= 1<<62 {
+				cls = append(cls, "schedule-that-never-starts")
+				break
+			}
+		}
 		if len(obs.restarts) > 0 {
 			cls = append(cls, "with-restart")
 		}
